@@ -219,6 +219,7 @@ func secWebSocketKey(rr io.Reader) (string, error) {
 	if err != nil {
 		return "", fmt.Errorf("failed to read random data from rand.Reader: %w", err)
 	}
+	simYield("dial.key", nil)
 	return base64.StdEncoding.EncodeToString(b), nil
 }
 
